@@ -1,41 +1,24 @@
 #!/usr/bin/env python3
-"""Generates /verif/MANIFEST.json from the table below (one entry per claimed property)."""
-import json
+"""Generates /verif/MANIFEST.json.  The per-property texts come from the rule metadata compiled into
+the checker (`bin/jetverif -meta`), so MANIFEST and evidence cannot drift apart.  A property that has
+no registered rule set is listed under not_applicable with its reason from NA below."""
+import json, subprocess
 
 ENV = "GOFLAGS=-mod=mod GOPROXY=off GOSUMDB=off GOTOOLCHAIN=local GOWORK=off"
 
-# id -> (technique, level text, level note, design ref)
-CLAIMED = {
-    "C16": ("guard/dominance rules on the CFG of the lookup functions in set.go with condition facts; flag-threading closure; error discipline",
-            "Decides the guard structure that makes the cache coherent: Cache.Get only outside development mode and a hit returns the cached pointer before any Loader call; "
-            "a single Cache.Put dominated by err == nil && flag && !developmentMode storing the just-loaded template under the looked-up path; the cache flag threaded unchanged "
-            "through the parse cycle (Set.Parse passes false); extension list only ranged over, first hit returns, Open/parse get the path Exists accepted; no error of Open/ReadAll/parse dropped. "
-            "Histories against real caches/loaders are not explored: these are necessary structural conditions.",
-            "Assumes Cache implementations return what was Put under the same key; stdlib trusted; facts on Set/Template fields are treated as stable during a lookup (discharged by C11.frozen).",
-            "DESIGN.md §4 C16"),
-    "C15": ("flow-sensitive sanitiser (taint) analysis on CFGs with condition facts, inductive over parameters and over the Template.Name / NodeBase.TemplatePath fields",
-            "Decides that every path reaching Loader.Exists/Open, Cache.Get/Put or Template.Name was made absolute and lexically clean by path.Clean under path.IsAbs or by path.Join rooted at a clean "
-            "path (after filepath.ToSlash), on every CFG path and through every caller (greatest fixpoint), and that each entry point passes the right referrer (root, the parsing template's Name, "
-            "the include node's TemplatePath) whose directory relative names are joined to. This is the sanitiser-placement half of the property; string results of path.Clean/Join are trusted.",
-            "Trusts path.Clean/Join/Dir/IsAbs and filepath.ToSlash; extensions are assumed separator-free; custom loaders are out of scope.",
-            "DESIGN.md §4 C15"),
-    "C20": ("exhaustiveness + child-coverage + nil-belief lint over the type-checked AST of utils/visitor.go vs node.go",
-            "Decides, for every node type and child field the parser can build, that the visitor has a case, visits each child exactly once "
-            "from an unconditional / nil-guarded / range call site, guards every field package jet believes nullable, and never re-visits its own node. "
-            "This is nearly the whole property (it is a property of the visitor's code shape); level 'other' because it is a structural argument, not a machine-checked proof.",
-            "Assumes a visitor that descends via VisitorContext.Visit; nullability beliefs are read from package jet's own nil tests and constructor calls; go/types front end trusted.",
-            "DESIGN.md §4 C20"),
-}
+# reasons for properties that are not claimed (kept current by hand)
+NA = {}
+PENDING_REASON = "check not yet implemented in this revision of /verif (static rules designed in DESIGN.md §4; code pending)"
 
-PENDING_REASON = "check not yet implemented in this revision of /verif (planned in DESIGN.md §4; static rules designed, code pending)"
 
 def main():
+    meta = json.loads(subprocess.check_output(["/verif/bin/jetverif", "-meta"]))
     props = [json.loads(l) for l in open('/verif/properties.jsonl')]
     checks, na = [], []
     for p in props:
         pid = p['id']
-        if pid in CLAIMED:
-            tech, text, note, ref = CLAIMED[pid]
+        if pid in meta and pid not in NA:
+            m = meta[pid]
             checks.append({
                 "property_id": pid,
                 "quick_cmd": f"./check {pid} quick",
@@ -43,9 +26,16 @@ def main():
                 "evidence_file": f"/verif/evidence/{pid}.json",
                 "replay_cmd_template": f"./check {pid} --replay {{path}}",
                 "engine": "jetverif",
-                "level_claimed": {"category": "other", "text": text, "design_ref": ref},
-                "level_note": note,
-                "technique": "static analysis: " + tech,
+                "level_claimed": {
+                    "category": "other",
+                    "text": "Structural necessary conditions of the property, decided for /repo's current source on every CFG path / every call site / every type "
+                            "(not a proof of the behaviour): " + m["explanation"] + "  NOT DECIDED (left to other technique families): " + m["not_decided"]
+                            + f"  The thorough tier additionally re-runs the rules on {m['mutants']} single-site in-memory mutants of the current tree, each of which must be reported (liveness of the rules).",
+                    "design_ref": f"DESIGN.md §4 {pid}",
+                },
+                "level_note": "Trusted base: go/parser + go/types + golang.org/x/tools v0.29.0 (go/packages, go/cfg); the standard library and fastprinter behave as documented. "
+                              + " ".join("Assumes: " + a + "." for a in m.get("assumptions") or []),
+                "technique": "static analysis — " + m["technique"],
             })
         else:
             na.append({"property_id": pid, "reason": NA.get(pid, PENDING_REASON)})
@@ -62,9 +52,10 @@ def main():
         "engines": [{
             "name": "jetverif",
             "path": "/verif/checker",
-            "serves_properties": sorted(CLAIMED),
-            "kind_free_text": "repository-specific static analyser (go/packages + go/types + go/cfg, x/tools v0.29.0): typed-AST lints, CFG path exploration with condition facts, "
-                              "pairing/typestate, provenance, sibling agreement; thorough tier adds a liveness self-test (single-site in-memory mutants of the current tree that each rule must report)",
+            "serves_properties": [c["property_id"] for c in checks],
+            "kind_free_text": "repository-specific static analyser (go/packages + go/types + go/cfg, x/tools v0.29.0): typed-AST lints, CFG exploration with condition facts "
+                              "(a small abstract interpretation), pairing/typestate, provenance and taint, sibling agreement; the thorough tier adds a liveness self-test "
+                              "(single-site in-memory mutants of the current tree that each rule must report)",
         }],
         "checks": checks,
         "not_applicable": na,
@@ -75,7 +66,6 @@ def main():
     json.dump(m, open('/verif/MANIFEST.json', 'w'), indent=1)
     print("wrote MANIFEST.json:", len(checks), "checks,", len(na), "not applicable")
 
-NA = {}
 
 if __name__ == '__main__':
     main()
